@@ -87,4 +87,53 @@ def ownNextOrig (node : Nat) (prevTs : HTs) (now : Nat) (payload : Nat) (ids : L
   { kind := .auth, ts := ts, payload := payload, addrIds := ids,
     sigKey := node, sigTs := ts, sigPayload := payload }
 
+/-! ### the address book entry of one node: both entry points -/
+
+/-- `NodeInfo::verify`: a complete node info is verified through its transports (if any). -/
+def nodeInfoVerify (node : Nat) (t : Option Rec) : Option VErr :=
+  match t with
+  | some r => verify node r
+  | none => none
+
+/-- The stored entry of one node: `row` = a `NodeInfo` row exists, `reg` = its `transports`. -/
+structure Book where
+  row : Bool
+  reg : Option Rec
+deriving DecidableEq, Repr
+
+def Book.empty : Book := { row := false, reg := none }
+
+/-- Result of `AddressBook::insert_node_info`: `Ok(true)` = newly inserted, `Ok(false)` = existing entry
+    overwritten, or the verification error. -/
+inductive InfoRes where
+  | ok (newly : Bool)
+  | err (e : VErr)
+deriving DecidableEq, Repr
+
+/-- `ToAddressBookActor::InsertNodeInfo`: verify the complete node info, then overwrite the entry —
+    the documented local override: *no* timestamp comparison for a valid node info. -/
+def insertNodeInfo (node : Nat) (b : Book) (t : Option Rec) : Book × InfoRes :=
+  match nodeInfoVerify node t with
+  | some e => (b, .err e)
+  | none => ({ row := true, reg := t }, .ok (!b.row))
+
+/-- `ToAddressBookActor::InsertTransportInfo`: verify, load the entry (or a fresh `NodeInfo::new`),
+    `update_transports`, store. A failed verification stores nothing (no row is created). -/
+def arrive (node : Nat) (b : Book) (r : Rec) : Book × Res :=
+  match (update node b.reg r).2 with
+  | .err e => (b, .err e)
+  | .ok newer => ({ row := true, reg := (update node b.reg r).1 }, .ok newer)
+
+/-- Operations on one node's entry. -/
+inductive Op where
+  | transport (r : Rec)
+  | nodeInfo (t : Option Rec)
+deriving DecidableEq, Repr
+
+def applyOp (node : Nat) (b : Book) : Op → Book
+  | .transport r => (arrive node b r).1
+  | .nodeInfo t => (insertNodeInfo node b t).1
+
+def runOps (node : Nat) (b : Book) (ops : List Op) : Book := ops.foldl (applyOp node) b
+
 end P2.AddrBook
